@@ -46,7 +46,7 @@ manifest = {
     "setup_cmd": "cd /verif/sim && CARGO_NET_OFFLINE=true cargo build --release --offline",
     "hooks": {
         "guard": "domain_verif",
-        "enable": "RUSTFLAGS --cfg domain_verif (set in /verif/sim/.cargo/config.toml). One source hook: src/zonetree/in_memory/sync.rs makes the zone tree's parking_lot RwLock acquisitions consult domain::zonetree::verif_hooks (used by the zone_threads scenario to interleave real threads at lock acquisitions). Everything else needs no source hooks: clocks and randomness are intercepted at the libc boundary, sockets and peers through the library's own traits.",
+        "enable": "RUSTFLAGS --cfg domain_verif (set in /verif/sim/.cargo/config.toml). Two source hooks: src/zonetree/in_memory/sync.rs makes the zone tree's parking_lot RwLock acquisitions consult domain::zonetree::verif_hooks (used by the zone_threads scenario to interleave real threads at lock acquisitions); src/base/message_builder.rs gives HashCompressor a fixed-key hasher instead of hashbrown's address- and clock-seeded default (so that a run replays exactly even when a defect leaves stale entries in the table). Everything else needs no source hooks: clocks and randomness are intercepted at the libc boundary, sockets and peers through the library's own traits.",
         "baseline_off_cmd": "cd /repo && cargo test --workspace --no-fail-fast --offline",
         "source_commits": hooks_commits,
         "add_only": False,
